@@ -282,7 +282,48 @@ def selectors_two_graphs_problems():
     return problems
 
 
+def mixed_mode_problems():
+    """all_classes_mode together with a shape map: class shapes and shape-map shapes both, a node found by both keeps both."""
+    from shexer.shaper import Shaper
+    ns = {"http://ex.org/": "ex", "http://sh.org/": "sx"}
+    problems = []
+    for sm, want in (("{FOCUS ex:p _}@<http://sh.org/B>", ("sx:B   # 2 instances.", ":C   # 2 instances.", ":D   # 1 instance.")),
+                     ("<http://ex.org/c>@<http://sh.org/N>\n{FOCUS a ex:C}@<http://sh.org/A>", ("sx:N   # 1 instance.", "sx:A   # 2 instances.", ":C   # 2 instances.", ":D   # 1 instance."))):
+        out = Shaper(raw_graph=SEL_DOC, shape_map_raw=sm, all_classes_mode=True, namespaces_dict=dict(ns), instances_report_mode="abs",
+                     remove_empty_shapes=False).shex_graph(string_output=True)
+        for w in want:
+            if w not in out:
+                problems.append("all_classes_mode + shape map %r: expected %r in\n%s" % (sm, w, out))
+    return problems
+
+
+def file_target_classes_problems():
+    """file_target_classes in the three spellings (full, <bracketed>, prefixed), '#' namespaces, blank lines and padding: the same shapes as target_classes=[...]."""
+    import os
+    import tempfile
+    from shexer.shaper import Shaper
+    doc = SEL_DOC + '<http://ex.org/e> <http://www.w3.org/1999/02/22-rdf-syntax-ns#type> <http://ex.org/onto#K> .\n<http://ex.org/e> <http://ex.org/q> "y" .\n'
+    ns = {"http://ex.org/": "ex", "http://ex.org/onto#": "on"}
+    want = Shaper(raw_graph=doc, target_classes=["http://ex.org/C", "http://ex.org/D", "http://ex.org/onto#K"], namespaces_dict=dict(ns), instances_report_mode="abs").shex_graph(string_output=True)
+    problems = []
+    for text in ("http://ex.org/C\nhttp://ex.org/D\nhttp://ex.org/onto#K\n", "<http://ex.org/C>\n<http://ex.org/D>\n<http://ex.org/onto#K>", "ex:C\n\n  ex:D  \non:K\n\n"):
+        fd, path = tempfile.mkstemp(suffix=".txt")
+        try:
+            with os.fdopen(fd, "w") as f:
+                f.write(text)
+            got = Shaper(raw_graph=doc, file_target_classes=path, namespaces_dict=dict(ns), instances_report_mode="abs").shex_graph(string_output=True)
+        finally:
+            os.unlink(path)
+        if got != want:
+            problems.append("file_target_classes %r differs from target_classes=[...]:\n%s\n---\n%s" % (text, got, want))
+    return problems
+
+
 def _history_more(name):
+    if name == "all-classes-plus-shape-map":
+        return mixed_mode_problems()
+    if name == "file-target-classes":
+        return file_target_classes_problems()
     if name == "selectors-two-graphs":
         return selectors_two_graphs_problems()
     if name == "min-iri-repeat":
